@@ -13,11 +13,15 @@ use std::sync::Arc;
 use std::time::Duration;
 
 #[derive(Debug, Clone)]
-pub struct Spec { pub events: usize, pub streams: usize, pub ep: Ep }
+pub struct Spec { pub events: usize, pub streams: usize, pub ep: Ep,
+                  /// a stream with the lowest id was created first and dropped again before the run, without ever having been told to end
+                  pub predropped: bool }
 
 fn make<F: Family>(spec: Spec) -> Instance where F::C: Send + Sync, F::D: Send, F::S: Send + 'static {
     let chan = F::mk();
+    let gone = if spec.predropped { Some(F::open(&chan)) } else { None };
     let streams: Vec<F::S> = (0..spec.streams).map(|_| F::open(&chan)).collect();
+    drop(gone);
     let mut bodies: Vec<mcx::Body> = Vec::new();
     {
         let chan = chan.clone();
@@ -79,7 +83,7 @@ pub fn scenarios(tier: Tier) -> Vec<ScenarioDef> {
             if ep == Ep::SendWith && tier == Tier::Quick { continue }
             for (idx, (events, streams)) in [(1usize, 1usize), (2, 1), (1, 2), (2, 2)].into_iter().enumerate() {
                 if tier == Tier::Quick && events == 2 && streams == 2 { continue }
-                let spec = Spec { events, streams, ep };
+                let spec = Spec { events, streams, ep, predropped: false };
                 let bound = match (tier, streams) { (Tier::Quick, 1) => 2, (Tier::Quick, _) => 2, (Tier::Thorough, 1) => 4, (Tier::Thorough, _) => 3 };
                 macro_rules! add { ($F:ty) => {{ let sp = spec.clone(); defs.push(ScenarioDef { prop: "C06", family: format!("{kname}/channel-level/{}", ep.name()), rung: format!("E{events}-S{streams}"), rung_idx: idx, max_bound: bound, make: Arc::new(move || make::<$F>(sp.clone())) }) }} }
                 match kname {
@@ -88,6 +92,18 @@ pub fn scenarios(tier: Tier) -> Vec<ScenarioDef> {
                     "multi-AA" => add!(Mu<ChannelMultiArcAtomic<u32, 4, 2>>), "multi-AF" => add!(Mu<ChannelMultiArcFullSync<u32, 4, 2>>), "multi-AC" => add!(Mu<ChannelMultiArcCrossbeam<u32, 4, 2>>),
                     "multi-OA" => add!(Mu<ChannelMultiOgreArcAtomic<u32, 4, 2>>), _ => add!(Mu<ChannelMultiOgreArcFullSync<u32, 4, 2>>),
                 }
+            }
+        }
+        // the same close with a lower stream id vacated earlier by a stream that went away on its own
+        {
+            let spec = Spec { events: 1, streams: 1, ep: Ep::Send, predropped: true };
+            let bound = match tier { Tier::Quick => 2, Tier::Thorough => 4 };
+            macro_rules! add { ($F:ty) => {{ let sp = spec.clone(); defs.push(ScenarioDef { prop: "C06", family: format!("{kname}/channel-level-after-drop/send"), rung: "E1-S1".to_string(), rung_idx: 0, max_bound: bound, make: Arc::new(move || make::<$F>(sp.clone())) }) }} }
+            match kname {
+                "uni-MA" => add!(U<ChannelUniMoveAtomic<u32, 4, 2>>), "uni-MF" => add!(U<ChannelUniMoveFullSync<u32, 4, 2>>), "uni-MC" => add!(U<ChannelUniMoveCrossbeam<u32, 4, 2>>),
+                "uni-ZA" => add!(U<ChannelUniZeroCopyAtomic<u32, 4, 2>>), "uni-ZF" => add!(U<ChannelUniZeroCopyFullSync<u32, 4, 2>>),
+                "multi-AA" => add!(Mu<ChannelMultiArcAtomic<u32, 4, 2>>), "multi-AF" => add!(Mu<ChannelMultiArcFullSync<u32, 4, 2>>), "multi-AC" => add!(Mu<ChannelMultiArcCrossbeam<u32, 4, 2>>),
+                "multi-OA" => add!(Mu<ChannelMultiOgreArcAtomic<u32, 4, 2>>), _ => add!(Mu<ChannelMultiOgreArcFullSync<u32, 4, 2>>),
             }
         }
     }
